@@ -197,6 +197,54 @@ def mut_case(draw, op):
     return c
 
 
+# ---- the same computation rebuilt: bit-identical results and gradients -------------------------------------
+@st.composite
+def rebuild_cases(draw):
+    k = draw(st.integers(2, 6))
+    return {"coef": [draw(st.sampled_from([1e8, -1e8, 1.0, 3e7, -3e7, 0.5, 1e-3, 7.0])) for _ in range(k)],
+            "n": draw(st.integers(1, 4)), "dtype": draw(st.sampled_from(["float32", "float32", "float64"])),
+            "junk": [draw(st.integers(0, 300)) for _ in range(6)], "how": draw(st.sampled_from(["sum_chain", "stack", "nested"]))}
+
+
+def check_rebuild(c, rec):
+    """One leaf feeding several consumers whose contributions differ by many orders of magnitude: the accumulated
+    gradient depends on the ORDER of accumulation in the last bits.  Rebuilding the identical program (fresh
+    objects at other addresses, unrelated allocations in between) must reproduce the result bit for bit."""
+    dt = np.dtype(c["dtype"])
+    keep = []
+
+    def build():
+        x = Tensor(np.full(c["n"], 1.0, dtype=dt) + np.arange(c["n"], dtype=dt) / 8, requires_grad=True)
+        parts = [x * float(a) for a in c["coef"]]
+        if c["how"] == "stack":
+            out = sg.stack(parts, 0).sum(0)
+        elif c["how"] == "nested":
+            out = parts[0]
+            for q in parts[1:]:
+                out = out + q * 1.0
+        else:
+            out = parts[0]
+            for q in parts[1:]:
+                out = out + q
+        out.backward(Tensor(np.ones(out.shape, dtype=dt)))
+        return out.data.tobytes(), x.grad.data.tobytes()
+
+    first = build()
+    rec.nontrivial(len({abs(a) for a in c["coef"]}) >= 2)
+    for r in range(12):
+        keep.append([object() for _ in range(c["junk"][r % len(c["junk"])])])     # shifts later allocations
+        if r % 3 == 2:
+            keep.pop(0)
+        again = build()
+        if again[0] != first[0]:
+            raise Violation("not_repeatable", f"rebuilding the same forward computation changed the result bits (rebuild {r}); {c}",
+                            region="rebuild")
+        if again[1] != first[1]:
+            raise Violation("not_repeatable", f"rebuilding the same program changed the bits of the leaf's gradient (rebuild {r}): "
+                                              f"{np.frombuffer(first[1], dtype=dt).tolist()} vs {np.frombuffer(again[1], dtype=dt).tolist()}; {c}",
+                            region="rebuild_grad")
+
+
 # ---- clone / detach -----------------------------------------------------------------------------
 @st.composite
 def copy_cases(draw):
@@ -304,6 +352,7 @@ def subchecks():
     for op in nnops.OPS + [nnops.DROPOUT]:
         subs.append(SubCheck("nn_" + op.name, make_check(op), (lambda op=op: mut_case(op)),
                              quick=150 if op.name in heavy else 200, thorough=2000, shards_quick=1, shards_thorough=2))
+    subs.append(SubCheck("rebuild_repeat", check_rebuild, rebuild_cases, quick=150, thorough=2000))
     subs.append(SubCheck("clone_detach", check_copy, copy_cases, quick=400, thorough=5000))
     subs.append(SubCheck("documented_inplace", check_inplace, inplace_cases, quick=200, thorough=2000))
     return subs
